@@ -5,4 +5,5 @@ From CS Require Import Base.Prelude Model.Pred Model.Catalog Model.TimeExtract.
 Extraction Language OCaml.
 
 Extraction "../ocaml/gen/timeextract_model.ml" extract plan_preds bounds mentions_ts convert
-  sem sat_all mkInterp mkRow resolve select_chunks.
+  sem sat_all mkInterp mkRow resolve select_chunks
+  known_empty_selection_schema register run_query full_scan qnode_fresh.
